@@ -148,7 +148,10 @@ def RULE(tier):
     return ("for each of %d data-object shapes (flat RawDom/RegDom/TymeDom/frozen IceRegDom, one and two levels of nesting, mixed) "
             "and each of JSON/CBOR/MessagePack: every field value that is a term of <= %d nodes over %d atoms, lists and str-keyed "
             "dicts (second field from a fixed small set); oracle: cls._fromX(obj._asX()) == obj, same class, type-strict deep "
-            "equality of fields, and again on the same object after a list/dict field value was changed in place. One case = (shape, format, field values)." % (len(SHAPES), n, len(ATOMS)))
+            "equality of fields, and again on the same object after a list/dict field value was changed in place; plus, for the nested "
+            "shapes, every sequence of <= %d objects from a pool whose nested field is absent (None), present, or present with None "
+            "inside, round-tripped one after the other in the same process (the result must not depend on what was converted "
+            "before). One case = (shape, format, field values)." % (len(SHAPES), n, len(ATOMS), 3 if tier == "quick" else 4))
 
 
 def EXHAUSTIVE(tier):
@@ -159,7 +162,73 @@ def jobs(tier):
     n = 3 if tier == "quick" else 4
     nt = len(all_terms(n))
     step = 400
-    return [(sh, a, min(a + step, nt), n) for sh in SHAPES for a in range(0, nt, step)]
+    return [(sh, a, min(a + step, nt), n) for sh in SHAPES for a in range(0, nt, step)] + \
+           [("hist", sh, 3 if tier == "quick" else 4) for sh in sorted(POOLS)]
+
+
+# objects of the nested shapes whose nested field is absent (None), present, or present with None inside: round-tripped one
+# after the other in every order (conversion must not depend on what was converted before)
+POOLS = {
+    "Nest1": [lambda: Nest1(x=None, y=1), lambda: Nest1(x=FlatRaw(a="a", b=1), y=None), lambda: Nest1(x=FlatRaw(a=None, b=None), y=[0])],
+    "Nest2": [lambda: Nest2(n=None, z=1), lambda: Nest2(n=Nest1(x=None, y=0), z=None),
+              lambda: Nest2(n=Nest1(x=FlatRaw(a={"k": 1}, b="x"), y=0.5), z=[None])],
+    "IceNest": [lambda: IceNest(x=None, y=1), lambda: IceNest(x=FlatIce(a="a", b=1), y=None), lambda: IceNest(x=FlatIce(a=None, b=None), y="é")],
+    "RegNest": [lambda: RegNest(x=None, y=None), lambda: RegNest(x=FlatReg(a=1, b=None), y=None),
+                lambda: RegNest(x=None, y=FlatTyme(a="t", b=0)), lambda: RegNest(x=FlatReg(a=[1], b=2), y=FlatTyme(a=None, b=None))],
+}
+
+
+def check_hist(shape, seq):
+    """round trips of POOLS[shape][i] for i in seq, in this process"""
+    v = []
+    for k, i in enumerate(seq):
+        v = _roundtrip(shape, POOLS[shape][i](), ":after-earlier-objects" if k else "")
+        if v:
+            break
+    return v
+
+
+def hist_pristine(shape, seqs):
+    """every sequence judged in its own freshly forked copy of a PRISTINE interpreter (a new python process that has only
+    imported hio and this module), so that no state left in hio by other cases or jobs can leak in: [(seq, viols)]"""
+    import json
+    import os
+    import subprocess
+    import sys
+    env = dict(os.environ, PYTHONPATH="/verif", PYTHONWARNINGS="ignore", PYTHONHASHSEED="0")
+    out = subprocess.run([sys.executable, "-m", "vf.checks.c28_doms", shape, json.dumps(seqs)], env=env, cwd="/verif",
+                         capture_output=True, text=True, timeout=600)
+    if out.returncode != 0:
+        raise RuntimeError("pristine helper failed: %s" % out.stderr[-400:])
+    return [(seq, [tuple(x) for x in viols]) for seq, viols in json.loads(out.stdout.strip().splitlines()[-1])]
+
+
+def _pristine_main(argv):
+    import json
+    import os
+    shape, seqs = argv[0], json.loads(argv[1])
+    res = []
+    for seq in seqs:
+        r, w = os.pipe()
+        pid = os.fork()
+        if pid == 0:
+            try:
+                os.close(r)
+                data = json.dumps(check_hist(shape, seq)).encode()
+                os.write(w, data)
+            finally:
+                os._exit(0)
+        os.close(w)
+        buf = b""
+        while True:
+            chunk = os.read(r, 65536)
+            if not chunk:
+                break
+            buf += chunk
+        os.close(r)
+        os.waitpid(pid, 0)
+        res.append([seq, json.loads(buf.decode()) if buf else [["hist:helper-died:%s" % shape, "child died for %r" % (seq,)]]])
+    print(json.dumps(res))
 
 
 SECOND = [1, None, "x", [0], {"k": False}]
@@ -234,6 +303,14 @@ def _roundtrip(shape, obj, phase):
 
 def run_job(job, tier, seed):
     acc = Acc(job)
+    if job[0] == "hist":
+        _, shape, depth = job
+        k = len(POOLS[shape])
+        seqs = [list(seq) for n in range(1, depth + 1) for seq in product([list(range(k))] * n)]
+        for seq, viols in hist_pristine(shape, seqs):
+            acc.case(["hist", shape, list(seq)], "ok" if not viols else viols[0][0], viols, sample=dict(shape=shape, sequence=list(seq)))
+        acc.r.obs.add(hash(("hist", shape)))
+        return acc.result()
     shape, a, b, n = job
     ts = all_terms(n)
     for i in range(a, b):
@@ -248,5 +325,12 @@ def run_job(job, tier, seed):
 
 
 def replay(job, case):
+    if case[0] == "hist":
+        return hist_pristine(case[1], [list(case[2])])[0][1]
     shape, i, j, n = case
     return check(shape, all_terms(n)[i], SECOND[j])
+
+
+if __name__ == "__main__":
+    import sys
+    _pristine_main(sys.argv[1:])
